@@ -31,7 +31,8 @@ Dirs     == {"main", "legacy"}
 Marks    == {"reg", "unreg"}
 Marker   == {"absent", "file", "link", "dangling"}
 DirKind  == {"absent", "empty", "populated"}
-InitForms == {"canonical", "legacy", "newline"}     \* renderings of an identifier found in a pre-existing file
+InitForms == {"canonical", "legacy", "newline", "spaced"}   \* renderings of an identifier found in a pre-existing file
+                                                    \* ("spaced": white space before and after it)
 (* spelling of the subscription-manager identity the host offers: none, or  *)
 (* a UUID written canonically (version 4), without hyphens, in upper case,  *)
 (* as a canonical-looking UUID that is not version 4 (the canonicalisation  *)
